@@ -306,6 +306,10 @@ fn exercise(spec: &ProgSpec, rng: &mut Rng, per_program_random: usize) -> Out1 {
         c.stale = 1 + rng.usize_below(300);
         cases.push(c);
     }
+    // every kind of hard error a sink can answer with, at the first write on stdout: ENOSPC, EIO, EPIPE (reader gone), EDQUOT, EFBIG
+    for errno in [28u32, 5, 32, 122, 27] {
+        cases.push(mk(if errno % 2 == 0 { Sink::StdoutPipe } else { Sink::StdoutFile }, format!("o:0:x:{}", errno)));
+    }
     // kernel-provided hard fault
     cases.push(mk(Sink::StdoutDevFull, String::new()));
     cases.push(mk(Sink::DashODevFull, String::new()));
@@ -317,7 +321,7 @@ fn exercise(spec: &ProgSpec, rng: &mut Rng, per_program_random: usize) -> Out1 {
             0 | 1 => format!("{}:*:l:{}", cls, rng.pick(&[1u32, 2, 3, 7, 64, 1023, 1024, 1025, 4096])),
             2 => format!("{}:{}:s:{}", cls, rng.below(4), 1 + rng.below(5)),
             3 => format!("{}:{}:e:0", cls, rng.below(4)),
-            4 => format!("{}:{}:x:28", cls, rng.below(3)),
+            4 => format!("{}:{}:x:{}", cls, rng.below(3), rng.pick(&[28u32, 5, 32, 122, 27])),
             _ => format!("{}:{}:b:0;{}:{}:e:0", cls, rng.below(3), cls, 1 + rng.below(3)),
         };
         cases.push(mk(sink, plan));
